@@ -26,6 +26,7 @@ type parkedG struct {
 	origin  string
 	arrival uint64
 	ch      chan struct{}
+	hold    bool // not released while another goroutine is parked (crash side "held")
 }
 
 type simT struct {
@@ -62,6 +63,9 @@ type simT struct {
 	matchCount   int // mutating calls matching CrashMatch so far
 	errCount     int
 	corruptCnt   map[int]int
+	prio         map[string]int // Bias 2: priority per origin for the current command
+	prioLow      int
+	curResps     *[]proto.Resp // answers of the batch in progress (reported if the process is crashed inside it)
 	pendingAfter string // label whose "after" crash is armed
 
 	out *os.File // result stream, for the crash message
@@ -102,6 +106,18 @@ func (s *simT) setSched(sc *proto.Sched) {
 	s.choices = sc.Choices
 	s.choiceIdx = 0
 	s.bias = sc.Bias
+	s.prio = map[string]int{}
+	s.prioLow = 0
+}
+
+// prioOf: random priority per origin (client or background instance), drawn when first seen.
+func (s *simT) prioOf(origin string) int {
+	if p, ok := s.prio[origin]; ok {
+		return p
+	}
+	p := 1 + s.rng.IntN(1<<20)
+	s.prio[origin] = p
+	return p
 }
 
 func (s *simT) logf(level int, format string, args ...interface{}) {
@@ -134,6 +150,13 @@ func (s *simT) yield(label string) {
 		return // the scheduler itself never parks
 	}
 	p := &parkedG{label: label, origin: s.origin(), ch: make(chan struct{})}
+	s.fmu.Lock()
+	if s.plan.CrashSide == "held" && s.plan.CrashMatch != "" && strings.Contains(label, s.plan.CrashMatch) {
+		// the write the crash is armed at: keep it pending for as long as anything else can run, so that
+		// everything that can be acknowledged while it is in flight is acknowledged before the process dies
+		p.hold = true
+	}
+	s.fmu.Unlock()
 	s.mu.Lock()
 	s.arrivals++
 	p.arrival = s.arrivals
@@ -177,6 +200,8 @@ func (s *simT) point(label string, write bool) error {
 			if hit {
 				if s.plan.CrashSide == "after" {
 					s.pendingAfter = label
+				} else if s.plan.CrashSide == "held" {
+					s.crash("held-before", label)
 				} else {
 					s.crash("before", label)
 				}
@@ -212,6 +237,16 @@ func (s *simT) crash(side, label string) {
 	res.WriteLog = s.writeLog
 	res.Choices = s.outChoices
 	res.Widths = s.outWidths
+	// requests of the running batch that were already answered when the process died (acknowledged work)
+	if s.curResps != nil {
+		for _, rp := range *s.curResps {
+			if rp.Done {
+				res.Resps = append(res.Resps, rp)
+			} else {
+				res.Resps = append(res.Resps, proto.Resp{Client: rp.Client})
+			}
+		}
+	}
 	s.mu.Unlock()
 	writeResult(s.out, &res)
 	os.Exit(137)
@@ -376,6 +411,25 @@ func (s *simT) choose(n int, sorted []*parkedG) int {
 		if s.bias == 1 {
 			_ = s.rng.IntN(4)
 		}
+		if s.bias == 2 {
+			_ = s.rng.IntN(16)
+		}
+	} else if s.bias == 2 {
+		// priority policy (after PCT): always the parked goroutine of the highest-priority origin, so one
+		// request can run to completion while another stays parked at its store call; now and then the
+		// running origin is demoted below all others
+		_ = s.rng.IntN(n)
+		demote := s.rng.IntN(16) == 0
+		best := -1 << 62
+		for i, p := range sorted {
+			if pr := s.prioOf(p.origin); pr > best {
+				best, c = pr, i
+			}
+		}
+		if demote {
+			s.prioLow--
+			s.prio[sorted[c].origin] = s.prioLow
+		}
 	} else {
 		c = s.rng.IntN(n)
 		if s.bias == 1 {
@@ -449,8 +503,16 @@ func (s *simT) run(done func() bool, drain bool) (wedged bool) {
 			continue
 		}
 		advanced, quantum, lockWaitStart = 0, 1, 0
-		sorted := make([]*parkedG, n)
-		copy(sorted, s.parked)
+		sorted := make([]*parkedG, 0, n)
+		for _, q := range s.parked {
+			if !q.hold {
+				sorted = append(sorted, q)
+			}
+		}
+		if len(sorted) == 0 {
+			sorted = append(sorted, s.parked...)
+		}
+		n = len(sorted)
 		sort.SliceStable(sorted, func(i, j int) bool {
 			a, b := sorted[i], sorted[j]
 			if a.origin != b.origin {
